@@ -2,34 +2,34 @@
    (regenerate with tools/gen_table.py after adding a module). -/
 import Driver.Ops.C03
 import Driver.Ops.C04
+import Driver.Ops.C05
 import Driver.Ops.C06
 import Driver.Ops.C07
 import Driver.Ops.C12
+import Driver.Ops.C14
 import Driver.Ops.C15
 import Driver.Ops.C17
 import Driver.Ops.C18
 import Driver.Ops.C19
 import Driver.Ops.C20
 import Driver.Ops.Std
-import Driver.Ops.C05
-import Driver.Ops.C14
 namespace ZVD
 
 def allOps : OpTable :=
   [("ping", fun _ => pure "ok pong")]
   ++ opsC03
   ++ opsC04
+  ++ opsC05
   ++ opsC06
   ++ opsC07
   ++ opsC12
+  ++ opsC14
   ++ opsC15
   ++ opsC17
   ++ opsC18
   ++ opsC19
   ++ opsC20
   ++ opsStd
-  ++ opsC05
-  ++ opsC14
 
 def dispatch (op : String) (a : Args) : Except String String :=
   match allOps.find? (·.1 == op) with
